@@ -3,8 +3,9 @@
    Remoting/ProcessorGo.v.  `process` interprets go_dispatch, the table
    REGENERATED from the source by `xlate dispatch` (type code -> processor; for
    the two phase-two processors: which request is asserted, which expression
-   selects the manager, which method is called with which arguments, whether an
-   error returns before anything is sent, which fields the response echoes and
+   selects the manager, which method is called with which arguments, what a
+   manager error does (silence always / only without a status), which result
+   code goes with and without an error, which fields the response echoes and
    which id it is sent under); requests, outcomes and manager sets are arbitrary. *)
 From Coq Require Import String.
 From Coq Require Import List NArith ZArith Bool Permutation.
